@@ -257,7 +257,9 @@ func init() {
 						prop["default"] = build(base)
 					}
 					schema, mk := fieldProgram(pos, prop)
+					var raw []any // the field's values, for the nullable-inner-array variant below
 					docs = append(docs, mk(build(base), false))
+					raw = append(raw, build(base))
 					for lv := 0; lv < depth; lv++ {
 						for _, n := range []int{ls[lv].mn - 1, ls[lv].mn, ls[lv].mx, ls[lv].mx + 1, 0, 4} {
 							if n < 0 {
@@ -266,6 +268,7 @@ func init() {
 							lens := append([]int(nil), base...)
 							lens[lv] = n
 							docs = append(docs, mk(build(lens), false))
+							raw = append(raw, build(lens))
 						}
 					}
 					if pos != PosRequired {
@@ -285,6 +288,28 @@ func init() {
 						scope = "K2-region"
 					}
 					pcs = append(pcs, baseCase("c07-array", schema, docs, string(pos), fmt.Sprintf("depth=%d", depth), scope))
+					if depth >= 2 && uniform && (pos == PosRequired || pos == PosOptional) {
+						// the same limits with the INNER arrays nullable (type [array, null], either order): an inner array that is
+						// there is still counted at its own level
+						propN := sgen.DeepCopy(prop).(M)
+						for lvl, cur := 1, propN["items"].(M); lvl < depth; lvl++ {
+							if lvl%2 == 1 {
+								cur["type"] = []any{"array", "null"}
+							} else {
+								cur["type"] = []any{"null", "array"}
+							}
+							if next, ok := cur["items"].(M); ok {
+								cur = next
+							}
+						}
+						delete(propN, "default")
+						schemaN, mkN := fieldProgram(pos, propN)
+						var docsN []any
+						for _, v := range raw {
+							docsN = append(docsN, mkN(v, false))
+						}
+						pcs = append(pcs, baseCase("c07-array", schemaN, docsN, string(pos), fmt.Sprintf("depth=%d", depth), "in-scope", "nullable-inner-arrays"))
+					}
 				}
 			}
 		}
